@@ -4,7 +4,7 @@ from srcgen import regen_src  # pre-build generator: Go source -> Gen/SrcPure.v
 PROP = {
     "confirm_scenarios": ['timed', 'noread', 'steady'],
     "pre": [regen_src],
-    "coq": ["C07", "C07b", "C07c", "C05t", "C12t", "C07t"],
+    "coq": ["C07", "C07b", "C07c", "C07x", "C05t", "C12t", "C07t"],
     "exhaustive": False,
     "rule": "timed (REAL time, timeout 150 ms; thorough: 100/150/250 ms): one public client call (8 small read/write operations, valid "
             "arguments) against a peer that plays a timed stream, on: tcp and rtuovertcp (19200, 115200 bps) attached to the scripted "
@@ -23,6 +23,13 @@ PROP = {
             "t35+n*t1+t35) + 256*t1 + 500us + g, g = 10 ms on the pty else 0; printed and compared with the extracted bound) + 150 ms "
             "scheduling slack, early if a timeout came before the timeout had elapsed, hang if a 6 x timeout watchdog fired. "
             "P = outcome, verdict and bound equal the model's. "
+            "timed, exception replies (c07_timelyexc.go; timeout 600 ms, thorough 400/600/1000): the other kind of VALID reply - on every "
+            "transport above, one call per function code the client emits (01 02 03 04 05 06 0F 10) and two typed wrappers are answered "
+            "by a well-formed exception response (fc|0x80, one code byte; every documented code 1 2 3 4 5 6 8 10 11 on every run, now and "
+            "then an undocumented one; from the addressed unit or the gateway unit 255) that is there at once, after 0.1/0.2/0.3 x timeout, "
+            "or in two pieces cut anywhere (0.05/0.2 x timeout); expected from the same extracted tm_client_call (client_validate on the "
+            "exception reply; Properties/C07x.v): the error of that code, returned by the arrival of the last byte + 150 ms slack, i.e. "
+            "well before the timeout - never request-timed-out. "
             "noread (REAL time; a peer that stops READING): N calls of one operation in a row on one connection; the peer reads and "
             "answers the first 0..2 requests, then keeps the connection open but neither reads nor sends, and the link takes only `room` "
             "more bytes - a request that does not fit blocks in Write until the i/o deadline. Scripted connection (sconn.NoRead; tcp, "
